@@ -69,3 +69,7 @@ add("C14", "fault_enumeration", "exhaustive fault enumeration per parsing entry 
     "For each entry point (BF3 reader, BEC2 reader x 5 decryptor sets, BF2 importer, identifier parser, filter formatter) every text position x {delete, duplicate, 10 replacement characters}, every binary position x 11 classes, every line deleted/duplicated/swapped, every prefix, all strings of length <= 5 over 8 symbols, every auth-block kind with every value length, and every structured edit pair of C05 are parsed; the result must be a return or a FormatError/ValueError subclass, within a 30 s watchdog, with library-global state unchanged after every chunk.",
     "Allowed types are FormatError and ValueError subclasses; artefacts are a fixed set of shapes.",
     "E3+E1", "DESIGN.md 4/C14")
+add("C17", "exploration", "complete enumeration of small prime-order groups in several projective scalings plus edge-scalar differential testing against OpenSSL on all 17 curves",
+    "On 8 prime-order curves over primes <= 61 every ordered pair of points in 4 projective scalings (add, double, negate, equality), every scalar 0..2n+1 on every point through the table, NAF and affine paths, and mul_add on every pair with edge scalars are compared with the textbook group law; inverse_mod and square_root_mod_prime are enumerated completely for all primes <= 257/307; on the 17 standard curves k*G and k*P for edge scalars and ECDH are compared with OpenSSL; invalid points must be rejected by every loader.",
+    "OpenSSL 3 CLI and the textbook affine reference are trusted; standard-curve behaviour beyond the listed scalars is inferred from the complete small-group results (same code paths).",
+    "E1", "DESIGN.md 4/C17")
